@@ -368,7 +368,9 @@ def run_check(prop, tier):
             what = k["what"] if k else key
             log("KNOWN-FINDING: property=%s %s [%s %s] seen %d times" % (prop, what, cls, sig, n))
         if final_viol:
-            for v, rp in final_viol:
+            if len(final_viol) > 8:
+                log("(%d distinct violation signatures; showing 8)" % len(final_viol))
+            for v, rp in final_viol[:8]:
                 log("  %s [%s] at op %s: %s" % (v["class"], v["sig"], v.get("op_index"), " ".join((v.get("detail") or "").split())[:500]))
                 log("VIOLATION property=%s replay=%s" % (prop, rp))
             return 1
